@@ -144,26 +144,34 @@ Section Reindex.
     else if in_names name bfill_ || in_names name backfill_ then Some "bfill"
     else method.
 
+  (* the loop over reindexed.names; since fix 2658d81 a variable WITHOUT a fill method is skipped: the base class result (old values
+     by label, dtype-aware fill values elsewhere) stands, pandas is consulted only where a method was asked for *)
   Fixpoint pandas_loop (orig : cst) (new_span : span) (mf : string -> option string) (fills : list (string * pyval)) (fv : pyval)
            (names : list string) (r : cst) : outcome cst :=
     match names with
     | [] => Ret r
     | name :: rest =>
-        match lookup name (c_vars orig), lookup name (c_vars r) with
-        | Some so, Some sn =>
-            bind (series_reindex (c_span orig) (s_dtype so) (s_data so) new_span (mf name) (fill_for fills fv name)) (fun vals =>
-            bind (assign_cast (s_dtype sn) vals) (fun d =>
-            pandas_loop orig new_span mf fills fv rest (set_data r name sn d)))
-        | _, _ => Raise KeyError
+        match mf name with
+        | None => pandas_loop orig new_span mf fills fv rest r
+        | Some m =>
+            match lookup name (c_vars orig), lookup name (c_vars r) with
+            | Some so, Some sn =>
+                bind (series_reindex (c_span orig) (s_dtype so) (s_data so) new_span (Some m) (fill_for fills fv name)) (fun vals =>
+                bind (assign_cast (s_dtype sn) vals) (fun d =>
+                pandas_loop orig new_span mf fills fv rest (set_data r name sn d)))
+            | _, _ => Raise KeyError
+            end
         end
     end.
+  (* since fix 2658d81: the strict test compares the keywords with `index` (all variables, incl. status / iterations), and the base
+     class reindex receives fill_value, strict and the per-variable keywords *)
   Definition pandas_reindex_M (st : cst) (names : list string) (new_span : span) (new_span_id : Z)
              (method : option string) (fill_value : pyval) (strict : option bool) (fills : list (string * pyval))
              (backfill_ bfill_ pad_ ffill_ nearest_ : list string) (fresh : Z) : outcome cst :=
     let strict' := match strict with None => c_strict st | Some b => b end in
-    if strict' && existsb (fun kv => negb (in_names (fst kv) names)) fills then Raise KeyError
+    if strict' && existsb (fun kv => negb (mem_name (fst kv) (c_vars st))) fills then Raise KeyError
     else
-      bind (model_reindex_M st new_span new_span_id PNone None [] fresh) (fun r =>
+      bind (model_reindex_M st new_span new_span_id fill_value strict fills fresh) (fun r =>
       pandas_loop st new_span (method_for backfill_ bfill_ pad_ ffill_ nearest_ method) fills fill_value names r).
 End Reindex.
 
